@@ -1838,7 +1838,7 @@ func replayMain(c *harness.Check) {
 	if err != nil {
 		harness.Fatal("%v", err)
 	}
-	if sc, _ := rec["scenario"].(string); sc == "relaybatch" {
+	if sc, _ := rec["scenario"].(string); sc == "relaybatch" || sc == "relayroam" {
 		if harness.ReplayExploration(c) {
 			os.Exit(1)
 		}
@@ -1903,7 +1903,7 @@ func main() {
 	registerBatch()
 	switch w := flag.Lookup("worker").Value.String(); w {
 	case "":
-	case "relaybatch":
+	case "relaybatch", "relayroam":
 		harness.WorkerMain()
 		return
 	case "c05live":
